@@ -1516,3 +1516,19 @@ def _one_dimension_beside(repo, ob, failure):
 GENERATORS.insert(0, ("C09.size.circle_one", _one_dimension_beside))
 GENERATORS.insert(0, ("C09.size.line_one", _one_dimension_beside))
 GENERATORS.insert(0, ("C09.size.circle", _one_dimension_beside))
+
+
+def _comparison_chain(repo, ob, failure):
+    """comparison operators associate left to right: `3 gt 2 gt 0` is `(3 gt 2) gt 0` = 1"""
+    import re as _re
+    for expr, want in [("3 gt 2 gt 0", "1"), ("1 lt 2 lt 3", "1"), ("5 gt 4 eq 0", "0")]:
+        doc = '<svg><text text="{{%s}}"/></svg>' % expr
+        r = run_svgdx(repo, doc, args=("--no-auto-styles",))
+        m = _re.search(r">([^<]*)</text>", r["out"])
+        if r["rc"] != 0 or not m or m.group(1) != want:
+            return {"input": doc, "args": ["--no-auto-styles"], "observed": (m.group(1) if m and r["rc"] == 0 else r["err"].strip()[-160:]), "expected": want}
+    return None
+
+
+GENERATORS.insert(0, ("C14.cmp.", _comparison_chain))
+GENERATORS.insert(0, ("loop1.ensures.25deed", _comparison_chain))
